@@ -136,6 +136,18 @@ theorem formatInt_ne_nil (n : Int) : formatInt n ≠ [] := by
   | ofNat k => exact formatNat_ne_nil k
   | negSucc k => simp [formatInt]
 
+theorem parseInt64_of_digits (s : Bytes) (k : Nat) (hall : ∀ c ∈ s, isDigit c = true)
+    (hp : parseDigits s = some k) (h : (k : Int) ≤ int64Max) : parseInt64 s = some (k : Int) := by
+  cases s with
+  | nil => simp [parseDigits] at hp
+  | cons c rest =>
+    have hc : isDigit c = true := hall c (by simp)
+    have h43 : (c == 43) = false := by
+      simpa using isDigit_ne c hc 43 (by decide)
+    have h45 : (c == 45) = false := by
+      simpa using isDigit_ne c hc 45 (by decide)
+    simp only [parseInt64, h43, h45, hp, Bool.false_eq_true, if_false, h, if_true]
+
 theorem parseInt64_formatNat (k : Nat) (h : (k : Int) ≤ int64Max) :
     parseInt64 (formatNat k) = some (k : Int) := by
   have hne := formatNat_ne_nil k
@@ -241,5 +253,15 @@ theorem parseDigits_pad3 (n : Nat) : parseDigits (pad3 n) = some n := by
   simp only [pad3]
   rw [parseDigitsAux_replicate_zero]
   exact hp
+
+theorem parseInt64_pad3 (n : Nat) (h : n < 1000) : parseInt64 (pad3 n) = some (n : Int) :=
+  parseInt64_of_digits (pad3 n) n (pad3_all_digits n) (parseDigits_pad3 n) (by
+    simp only [int64Max]; omega)
+
+theorem pad3_ne_nil (n : Nat) : pad3 n ≠ [] := by
+  simp [pad3, formatNat_ne_nil]
+
+theorem pad3_not_mem (n : Nat) (d : UInt8) (hd : d.toNat < 48 ∨ 57 < d.toNat) : d ∉ pad3 n :=
+  fun h => isDigit_ne d (pad3_all_digits n d h) d hd rfl
 
 end ModVerif.Decimal
